@@ -410,7 +410,7 @@ fn main() {
     let mut gen = SplitMix64::new(a.seed.wrapping_mul(0x2545_F491).wrapping_add(15));
     let betas = [0.5, 1.0, 2.0, 4.0];
     if a.mode == "convert" || a.mode == "all" {
-        let reps = if a.thorough { 900 } else { 150 };
+        let reps = if a.thorough { 6000 } else { 150 };
         for rep in 0..reps {
             let s = gen_spec(&mut gen, rep % 3);
             let cutoff = match gen.below(4) {
@@ -432,7 +432,7 @@ fn main() {
         domain_notes();
     }
     if a.mode == "lockstep" || a.mode == "all" {
-        let reps = if a.thorough { 400 } else { 80 };
+        let reps = if a.thorough { 2500 } else { 80 };
         let (mut hz, mut hz_same, mut hn, mut hn_same, mut op, mut op_same) = (0, 0, 0, 0, 0, 0);
         for rep in 0..reps {
             let hk = if rep % 3 == 2 { 1 + gen.below(2) } else { 0 };
